@@ -23,7 +23,7 @@ CHECK_DEADLOCK FALSE
 POSTCONDITION Post
 """
 API = {"missed-difference": "alt.Diff", "spurious-path": "alt.Diff", "ignored-path-returned": "alt.Diff", "compare-mismatch": "alt.Compare",
-       "match-wrong": "alt.Match"}
+       "match-wrong": "alt.Match", "not-reflexive": "alt.Diff/Compare/Match"}
 
 
 def tlc_cases(ctx, nodes, pert, rich, maxigs, simulate=None, depth=None):
@@ -91,6 +91,11 @@ def judge(ctx, cases):
         else:
             ign, got = [], {"match": L["mab"] if b["ord"] == "ab" else L["mba"]}
         case = {"a": L["a"], "b": L["b"], "igs": [ign], "salt": L["salt"]}
+        if b["ord"] in ("aa", "bb"):        # Reflexive: the tree against an equal, separately built one
+            tree = L["a"] if b["ord"] == "aa" else L["b"]
+            r = L["ra"] if b["ord"] == "aa" else L["rb"]
+            case = {"a": tree, "b": tree, "igs": [[]], "salt": L["salt"]}
+            got = {"d": r["d"], "c": r["c"], "pan": r["pan"], "matchself": r["m"]}
         key = (json.dumps(case, sort_keys=True), b["ord"], b["kind"], "/".join(str(x) for x in b["loc"]))
         g = groups.setdefault(key, {"forms": set(), "case": case, "got": got})
         g["forms"] |= {"simple", "gen"} if L["f"] == "both" else {L["f"]}
@@ -100,7 +105,7 @@ def judge(ctx, cases):
             api += "[%s-only]" % sorted(g["forms"])[0]
         case = g["case"]
         wit = {"a": show(case["a"]), "b": show(case["b"]), "ignores": [showp(p) for p in case["igs"][0]],
-               "order": "(a,b)" if ord_ == "ab" else "(b,a)"}
+               "order": {"ab": "(a,b)", "ba": "(b,a)"}.get(ord_, "(x,x)")}
         recs.append({"api": api, "kind": kind, "locus": loc, "witness": wit, "case": case, "detail": {"returned": showobs(g["got"])}})
     judge.last = res
     # per line: 2 Match calls + per ignore set 2 Diff + 2 Compare calls; a "both" line stands for two forms
@@ -141,7 +146,10 @@ def showp(p):
 def showobs(o):
     if "match" in o:
         return o
-    return {"diff": [showp(p) for p in o["d"]], "compare": [showp(p) for p in o["c"]], "panic": o["pan"]}
+    r = {"diff": [showp(p) for p in o["d"]], "compare": [showp(p) for p in o["c"]], "panic": o["pan"]}
+    if "matchself" in o:
+        r["match"] = o["matchself"]
+    return r
 
 
 def main(ctx):
@@ -206,7 +214,7 @@ def main(ctx):
         "int versus numerically equal float may or may not be reported (numeric width is read either way)",
         "an ignore path ignores the location it names (nil = any single segment) and everything below; a returned path it covers is a deviation; completeness is waived only for a container-kind/presence difference of which the ignore path names an existing descendant",
         "Match: a null fingerprint member matches an absent target member (documented obligation); longer target array, null fingerprint elements beyond the target array's end, int-vs-equal-float are open",
-        "values: |int| < 2^63 incl. near neighbours beyond 2^53 and at both ends of int64, compared exactly as decimal digit records (uint64 beyond int64 excluded: ojg normalises to int64), no NaN/Inf/-0, times differ by whole seconds (TimeTolerance not modelled)",
+        "values: every Go integer kind at its boundaries incl. uint/uint64 above MaxInt64, near neighbours beyond 2^53, compared exactly as decimal digit records; only an unsigned value above MaxInt64 against the int64 with the same bit pattern is open; float specials incl. +-Inf; no NaN/-0; times differ by whole seconds (TimeTolerance not modelled)",
     ]
 
     def confirm(rec):
